@@ -127,7 +127,16 @@ fn early_stop_case(case: &mut Case) {
 fn target_count_case(case: &mut Case) {
     let large = case.rng.pct(25);
     let mut g = if large {
-        gen_graph(&mut case.rng, &Knobs { layered: Some((5, 1200)), ..Knobs::default() })
+        let mut g = gen_graph(&mut case.rng, &Knobs { layered: Some((5, 1200)), ..Knobs::default() });
+        // boundary cuts: successors that are generated but lie outside must not count
+        if case.rng.pct(60) {
+            for s in 1200..g.n {
+                if case.rng.pct(25) {
+                    g.inb[s] = false;
+                }
+            }
+        }
+        g
     } else {
         gen_graph(&mut case.rng, &Knobs { max_n: 40, allow_outside_inits: false, ..Knobs::default() })
     };
